@@ -135,5 +135,7 @@ func c03(c *core.Ctx, r *core.Report) {
 	// ---- R03.seenkey
 	seenKeyRule(c, r, "R03.seenkey", "analysis/backtrace", "the trace behind the second entry into a shared helper chain stops at the inner call, its origin appears in no trace")
 	treeKeyRule(c, r, "R03.seenkey", "backward states with different outer callers are merged")
+	c03param(c, r)
+	apGrammarRule(c, r, "R03.apgrammar", "analysis/backtrace")
 	memoRule(c, r, "R03.memo", func(fn *ssa.Function, rel string) bool { return rel == "analysis/backtrace" }, "stale traversal state hides traces")
 }
